@@ -137,6 +137,7 @@ func (e *c16Env) context() *plush.Context {
 	c.Set("mark", func() string { e.marks++; return "" })
 	c.Set("rec", func(v interface{}) interface{} { e.seen = append(e.seen, v); return v })
 	c.Set("idf", func(v interface{}) interface{} { return v })
+	c.Set("pers", Person{Name: "N", Kid: &Person{Name: "K"}, Tags: []string{"t0", "t1"}, Attrs: map[string]string{"k": "v"}})
 	return c
 }
 
@@ -327,6 +328,9 @@ func c16Special(t *engine.T) {
 		{"text before return, emitted inside blocks", `<% let f = fn(a) { %>T<%= a %><% return "r" } %><%= if (true) { %>A<%= f("1") %>B<% } %>|<%= for (v) in [1, 2] { %>(<%= f("2") %>)<% } %>|<% let g = fn() { %>g<%= f("3") %>h<% } %><%= g() %>`, "AT1rB|(T2r)(T2r)|gT3rh"},
 		{"text before return, called silently", `<% let f = fn() { %>T<% return "r" } %><%= if (true) { %>A<% f() %>B<% let z = f() %>C<% } %>D`, "ABCD"},
 		{"return inside nested blocks with text", `<% let f = fn(a) { %>x<% if (a) { %>y<% return "1" } %>z<% return "2" } %><%= f(true) %>|<%= f(false) %>`, "xy1|xz2"},
+		{"path continues from a function's result", `<% let id = fn(v) { return v } %><%= id(pers).Name %>|<%= id(pers).Kid.Name %>|<%= id(pers).Tags[1] %>|<%= id(pers).Hello() %>|<%= id(id(pers)).Attrs["k"] %>`, "N|K|t1|hello N|v"},
+		{"path on the result of a function reached through a parameter", `<% let id = fn(v) { return v } %><% let ap = fn(g, v) { return g(v).Name } %><%= ap(id, pers) %>|<%= ap(id, pers.Kid) %>`, "N|K"},
+		{"calling a call result whose text contains a dot", `<% let mk = fn(a) { return fn(b) { return a + b } } %><% let add = fn(a) { return fn(b) { return b + 1 } } %><%= add(1.5)(2) %>|<%= add("a.b")(2) %>|<%= fn(x) { return x + 1.5 }(2.0) %>|<%= add(pers.Name)(4) %>`, "3|3|3.5|5"},
 		{"apply with two different functions", `<% let f1 = fn(a) { return a + "1" } %><% let f2 = fn(a) { return a + "2" } %><% let apply = fn(g, v) { return g(v) } %><%= apply(f1, "A") %>|<%= apply(f2, "A") %>|<%= apply(f1, apply(f2, "B")) %>`, "A1|A2|B21"},
 		{"rebound function variable", `<% let h = fn(a) { return "p" + a } %><%= h("1") %><% h = fn(a) { return "q" + a } %>|<%= h("1") %><% let k = h %>|<%= k("2") %>`, "p1|q1|q2"},
 		{"parameter named like a defined function", `<% let f = fn(a) { return "outer" + a } %><% let call = fn(f, v) { return f(v) } %><% let other = fn(a) { return "param" + a } %><%= call(other, "1") %>|<%= f("2") %>|<%= call(f, "3") %>`, "param1|outer2|outer3"},
